@@ -61,12 +61,34 @@ class Ctx:
             return MM.ret(st, EnumV("Result", z3.If(ok, 0, 1), {0: (MI.UNIT,), 1: (Opaque("anyhow::Error"),)}))
         if re.match(r"^<.* as (Clone|ToOwned)>::(clone|to_owned)$", f):
             return MM.ret(st, MM.deref_all(I, st, args[0]))
+        # state the verifier may carry between calls (caches, memo tables): arbitrary pre-state — a lookup answers anything,
+        # an update is dropped; sound for "after any history" because nothing is assumed about what earlier calls stored
+        if re.search(r"ProtocolKey::<.*>::(to_bytes_hex|to_json_hex)$", f):
+            k = MM.deref_all(I, st, args[0])
+            return MM.ret(st, EnumV("Result", 0, {0: (Abs("str", z3.Function("encoding_of", z3.IntSort(), z3.IntSort())(k.term)) if isinstance(k, Abs) else Opaque("encoding"),)}))
+        if re.match(r"^(Mutex|RwLock)::<.*>::(lock|read|write)$", f):
+            return MM.ret(st, EnumV("Result", 0, {0: (args[0],)}))
+        if re.match(r"^<(MutexGuard|RwLockReadGuard|RwLockWriteGuard)<.*> as (Deref|DerefMut)>::(deref|deref_mut)$", f):
+            return MM.ret(st, args[0])
+        m = re.match(r"^(HashSet|BTreeSet|HashMap|BTreeMap)::<.*>::(contains|contains_key|insert|remove|get)(::<.*>)?$", f)
+        if m and isinstance(MM.deref_all(I, st, args[0]), Opaque):
+            I.fresh_counter += 1
+            if m.group(2) in ("contains", "contains_key") or (m.group(2) in ("insert", "remove") and m.group(1).endswith("Set")):
+                b = z3.Bool("carried_state_answer!%d" % I.fresh_counter)
+                st.trace = st.trace + (("carried_state", m.group(2), b),)
+                return MM.ret(st, b)
+            return MM.ret(st, EnumV("Option", 0, {}))
         return None
 
 
 def native_attribution():
     from checks.c17 import native_query
     return [l for l in native_query(["attribution"]) if l.startswith(("own-label", "scenario"))]
+
+
+def native_slot_binding():
+    from checks.c17 import native_query
+    return [l for l in native_query(["slot_binding"]) if l.startswith(("slot_binding", "scenario"))]
 
 
 def run(tier, seed):
@@ -101,7 +123,8 @@ def run(tier, seed):
         st = MI.State()
         fr = I.frame_counter + 1
         I.frame_counter += 3
-        st.mem[(fr, 0)] = Agg("adt", "MultiSigner", (Opaque("clerk"), Opaque("parameters")))
+        ms_fields = db.struct_fields("MultiSigner") or [("protocol_clerk", "ProtocolClerk"), ("protocol_parameters", "Parameters")]
+        st.mem[(fr, 0)] = Agg("adt", "MultiSigner", tuple(Opaque(t) for n, t in ms_fields))
         st.mem[(fr + 1, 0)] = Opaque("message")
         st.mem[(fr + 2, 0)] = ss
         outs = I.call_fn(f, [Ref(fr, 0, ()), Ref(fr + 1, 0, ()), Ref(fr + 2, 0, ())], st)
@@ -160,9 +183,14 @@ def run(tier, seed):
         native = {}
         reproduced = False
         try:
-            lines = native_attribution()
-            native["attribution"] = lines
-            reproduced = any("other-label=accepted" in l for l in lines)
+            if role == "c16-label-not-bound-to-embedded-slot":
+                lines = native_attribution()
+                native["attribution"] = lines
+                reproduced = any("other-label=accepted" in l for l in lines)
+            else:
+                lines = native_slot_binding()
+                native["slot_binding"] = lines
+                reproduced = any("VIOLATED" in l for l in lines)
         except Exception as e:
             native["error"] = str(e)
         path = core.write_replay("C16", k, {"property": "C16", "role": role, "obligation": ob.name, "counterexample": ob.counterexample, "native_replay": native})
